@@ -39,6 +39,18 @@ pub proof fn lemma_index_members_from_coherence<T: Eq + PartialOrd + Send + Sync
     }
 }
 
+// [C20.wsteps.lead_to_node_names] with coherent adjacency maps a weak step leads to a node name
+pub proof fn lemma_wsteps_known<T: Eq + PartialOrd + Send + Sync, A: Clone>(g: Graph<T, A>)
+    requires
+        g.wf_name_sets(),
+    ensures
+        wsteps_known(g),
+{
+    assert forall|a: T, x: T| #[trigger] wsteps(g, a, x) implies g.knows(x) by {
+        if g.succ_names(a).contains(x) { } else { assert(g.pred_names(a).contains(x)); }
+    }
+}
+
 // [C10.wsteps.symmetric_on_directed_graphs] with coherent adjacency maps a weak step (successor or predecessor name) can be taken back
 pub proof fn lemma_wsteps_symmetric<T: Eq + PartialOrd + Send + Sync, A: Clone>(g: Graph<T, A>)
     requires
